@@ -65,10 +65,11 @@ def generate(tier, rng):
         n = hi - lo
         if rng.random() < 0.5:
             ls = rng.randint(0, n - 1)
-            le = rng.randint(ls + 1, n)
+            opn = rng.random() < 0.3
+            le = n if opn else rng.randint(ls + 1, n)
             start = rng.randint(0, le - 1)
         else:
-            ls, le, start = -1, -1, rng.randint(0, n - 1)
+            ls, le, start, opn = -1, -1, rng.randint(0, n - 1), False
         steps = []
         for _ in range(rng.randint(4, 30)):
             if rng.random() < 0.65:
@@ -77,7 +78,7 @@ def generate(tier, rng):
                 steps.append({"act": "Cmd", "c": rng.choice(["pause", "resume", "stop", "volume", "panning", "rate", "pause", "resume"]),
                               "d": rng.choice([0, 1, 2, 3]), "v": rng.choice([0, 1, 2])})
         steps += [{"act": "Callback"}] * 3
-        scen.append({"cfg": {"len": ln, "lo": lo, "hi": hi, "start": start, "ls": ls, "le": le,
+        scen.append({"cfg": {"len": ln, "lo": lo, "hi": hi, "start": start, "ls": ls, "le": le, "open": opn,
                              "rate": rng.choice([0, 128, 256, 256, 512]), "pk": rng.choice([1, 2, 3, 5, 16]), "early": rng.choice([0, 1, 2, 5])},
                      "src": "random", "ring": rng.choice([0, 48, 64, 0]), "steps": steps})
     return scen
